@@ -98,4 +98,71 @@ def emphPostGo (ds : List Delim) : Nat → Int → List Tok → List Tok
 def emphasisPost (s : IState) : IState :=
   { s with tokens := emphPostGo s.delimiters s.delimiters.length ((s.delimiters.length : Int) - 1) s.tokens }
 
+/-! ### `strikethrough` -/
+
+/-- the `while i < length` loop of `strikethrough.tokenize`: one `~~` text token and one delimiter record per pair of markers -/
+def strikePush (o c : Bool) : Nat → IState → IState
+  | 0, s => s
+  | k + 1, s =>
+    let s1 := s.push "text" "" 0 "~~" "" ""
+    strikePush o c k
+      { s1 with delimiters := s1.delimiters ++ [{ marker := 0x7E, length := 0, token := (s1.tokens.length : Int) - 1, end_ := -1, open_ := o, close := c }] }
+
+/-- `strikethrough.tokenize` -/
+def ruleStrike (cls : QCls) : IRule := fun s silent =>
+  match s.src[s.pos]? with
+  | none => .error .indexError
+  | some ch =>
+    if silent then .ok (false, s) else
+    if ch != '~' then .ok (false, s) else
+    let sc := scanDelims cls s s.pos true
+    if sc.2.2 < 2 then .ok (false, s) else
+    let s0 := if sc.2.2 % 2 = 1 then s.push "text" "" 0 "~" "" "" else s
+    let s1 := strikePush sc.1 sc.2.1 (sc.2.2 / 2) s0
+    .ok (true, { s1 with pos := s.pos + sc.2.2 })
+
+/-- first loop of `strikethrough._postProcess`: the pairs become `s_open` / `s_close`; returns the tokens and `loneMarkers` -/
+def strikeMark (ds : List Delim) : Nat → Nat → List Tok → List Nat → List Tok × List Nat
+  | 0, _, ts, lone => (ts, lone)
+  | fuel + 1, i, ts, lone =>
+    match ds[i]? with
+    | none => (ts, lone)
+    | some sd =>
+      if sd.marker != 0x7E then strikeMark ds fuel (i + 1) ts lone
+      else if sd.end_ == -1 then strikeMark ds fuel (i + 1) ts lone
+      else
+        match ds[sd.end_.toNat]? with
+        | none => (ts, lone)
+        | some ed =>
+          let ts1 := ts.modify sd.token.toNat (fun t => t.setEmph "s_open" "s" 1 "~~")
+          let ts2 := ts1.modify ed.token.toNat (fun t => t.setEmph "s_close" "s" (-1) "~~")
+          let lone' := match ts2[(ed.token - 1).toNat]? with
+            | some p => if p.type == "text" && p.content == "~" then lone ++ [(ed.token - 1).toNat] else lone
+            | none => lone
+          strikeMark ds fuel (i + 1) ts2 lone'
+
+/-- `while j < len(tokens) and tokens[j].type == "s_close": j += 1` -/
+def closeRun (ts : List Tok) : Nat → Nat → Nat
+  | 0, j => j
+  | fuel + 1, j => match ts[j]? with
+    | some t => if t.type == "s_close" then closeRun ts fuel (j + 1) else j
+    | none => j
+
+/-- second loop: every lone marker is moved behind the `s_close` tokens that follow it (`loneMarkers.pop()` takes the last first) -/
+def strikeSwap : List Nat → List Tok → List Tok
+  | [], ts => ts
+  | i :: rest, ts =>
+    let j := closeRun ts ts.length (i + 1) - 1
+    let ts' := if i != j then
+        match ts[i]?, ts[j]? with
+        | some a, some b => (ts.set j a).set i b
+        | _, _ => ts
+      else ts
+    strikeSwap rest ts'
+
+/-- `strikethrough.postProcess` when no token carries a delimiter list of its own -/
+def strikePost (s : IState) : IState :=
+  let r := strikeMark s.delimiters s.delimiters.length 0 s.tokens []
+  { s with tokens := strikeSwap r.2.reverse r.1 }
+
 end MdIt
